@@ -111,6 +111,26 @@ def run_case(ck, desc):
             other.gas_FVF(p, Tpc + 40.0, ppc + 25.0)
             other.gas_viscosity(p, Tpc + 40.0, ppc + 25.0)
         ck.count("facade_calls_after_another_fluid_was_used")
+        if int(desc["Sw"] * 1000) % 7 == 0:
+            # four Fluid objects used from four threads at once: each answer belongs to its own object
+            import functools
+
+            groups = []
+            for k in range(4):
+                fk = Fluid(T + 29 * k, api + 2 * k, min(1.3, gg + 0.05 * k), gor * (1 + 0.3 * k), salinity=sal + 2 * k)
+                fgk = Fluid(Tg + 17 * k, api, min(1.3, gg + 0.05 * k), gor)
+                g = []
+                for _ in range(6):
+                    g += [functools.partial(fk.water_FVF, p), functools.partial(fk.water_viscosity, p), functools.partial(fk.oil_FVF, p), functools.partial(fk.oil_viscosity, p), fk.pressure_bubblepoint,
+                          functools.partial(fgk.gas_FVF, p, Tpc, ppc), functools.partial(fgk.gas_viscosity, p, Tpc, ppc)]
+                groups.append(g)
+            bad, errs, n_calls = instrument.concurrent_vs_alone(groups)
+            ck.count("concurrent_evaluations", n_calls)
+            ck.count("thread_groups")
+            for k_, i_, a, b in bad[:3]:
+                ck.violation("threads-same-value-as-the-call-made-alone", {"method": ("water_FVF", "water_viscosity", "oil_FVF", "oil_viscosity", "pressure_bubblepoint", "gas_FVF", "gas_viscosity")[i_ % 7], "thread": k_, "n_differing": len(bad)}, desc)
+            if errs:
+                ck.violation("threads-every-call-returns", {"errors": [e[2] for e in errs[:3]]}, desc)
         _close(ck, "facade.water_FVF", fl.water_FVF(p), [water.b_water_McCain(T, x) for x in p], desc, tol)
         _close(ck, "facade.water_viscosity", fl.water_viscosity(p), [water.viscosity_water_McCain(T, x, sal) for x in p], desc, tol)
         _close(ck, "facade.gas_FVF", flg.gas_FVF(p, Tpc, ppc), [gas.b_factor_DAK(Tg, x, Tpc, ppc) for x in p], desc, tol)
